@@ -78,8 +78,11 @@ def dtlz_cases(draw, family):
     else:
         dist = draw(st.lists(unit, min_size=k, max_size=k))
     case = {"family": family, "m": m, "x": pos + dist, "vec": draw(VEC)}
-    if draw(st.integers(0, 3)) == 0:
+    kind = draw(st.integers(0, 7))
+    if kind in (0, 1):
         case["before"] = [draw(unit) for _ in range(n)]
+    elif kind == 2:
+        case["held"] = [[draw(unit) for _ in range(n)] for _ in range(draw(st.integers(1, 3)))]
     return case
 
 
@@ -96,9 +99,24 @@ def check_dtlz(case):
     fam, m, x = case["family"], case["m"], case["x"]
     n = len(x)
     k = n - m + 1
+    held = None
     with guard("dtlz"):
         prob = bench(fam, dimension=n, m=m)
-        if case.get("before"):
+        if case.get("held"):
+            # a FRESH problem object; the objective list returned for the case's point is kept (as Job.evaluate keeps it in
+            # individual.costs) while further points are evaluated on the same object, and judged afterwards
+            import artap.benchmark_pareto as bp
+            from artap.individual import Individual
+            from ..harness import dispose
+            prob = getattr(bp, fam)(dimension=n, m=m)
+            try:
+                held = prob.evaluate(Individual(mk_vec(x, case.get("vec"))))
+                for other in case["held"]:
+                    prob.evaluate(Individual(list(other)))
+            finally:
+                dispose(prob)
+            f = held
+        elif case.get("before"):
             # the same Individual object was evaluated at another point before and then moved IN PLACE (coordinate
             # assignment, as position updates and parameter sweeps do): its objectives must be those of the new point
             from artap.individual import Individual
@@ -132,7 +150,7 @@ def check_dtlz(case):
     vals = [p for p in pos if p != 0.5]
     nt = len(set(vals)) >= 2 or (m == 2 and len(vals) == 1)
     return {"nt": nt, "classes": [fam, "m%d" % m, "pareto-slice" if on_slice else "off-slice", case.get("vec") or "list"] + (
-        ["moved-in-place"] if case.get("before") else [])}
+        ["moved-in-place"] if case.get("before") else []) + (["result-held-while-others-evaluated"] if case.get("held") else [])}
 
 
 @st.composite
